@@ -78,7 +78,10 @@ def _i16(rng, shape):
 
 
 def _f32_decades(rng, shape, lo=-5, hi=-1):
-    return (10.0 ** rng.uniform(lo, hi, size=shape)).astype(np.float32)
+    a = (10.0 ** rng.uniform(lo, hi, size=shape)).astype(np.float32)
+    # a stored statistic can be exactly 0 (a halo without an L2 subhalo, a degenerate group)
+    a[rng.random(shape) < 0.08] = 0
+    return a
 
 
 def _euler(rng, n):
